@@ -17,6 +17,7 @@ import (
 
 type ghostDecl struct {
 	name, sort string
+	pkg        string // package whose scope resolves the sort
 }
 
 type rawAcc struct{ fn, sort string }
